@@ -11,7 +11,6 @@ static uint32_t ps_slots_used;
 #define PS_POOLW 4
 #endif
 static uint64_t ps_pool[PS_MAXT][PS_POOLW]; static uint8_t ps_pool_live[PS_MAXT];
-static uint8_t sh_wt[PS_SLOTS]; static uint16_t sh_wc[PS_SLOTS], sh_rc[PS_SLOTS][PS_MAXT];
 
 #ifdef __CPROVER__
 #define PS_FAIL(code, msg) do { __CPROVER_assert(0, msg); __CPROVER_assume(0); } while (0)
@@ -23,6 +22,9 @@ static uint8_t sh_wt[PS_SLOTS]; static uint16_t sh_wc[PS_SLOTS], sh_rc[PS_SLOTS]
 #define PS_OFF(p, b) ((uint64_t)((uintptr_t)(p) - (uintptr_t)(b)))
 #endif
 
+#ifdef PS_RACE
+static void ps_int_begin(int t); static uint16_t ps_hn[]; 
+#endif
 void ps_reset(struct vr_coro* coordinator){
 #ifdef VR_POOL_ALLOC
   for (int t = 0; t < PS_MAXT; t++) ps_pool_live[t] = 0;
@@ -30,7 +32,13 @@ void ps_reset(struct vr_coro* coordinator){
   ps_cur = 0; ps_n = 1; ps_owner = -1; ps_fault = 0; ps_mutex = 0; ps_cv = 0; ps_slots_used = 0;
   for (int t = 0; t < PS_MAXT; t++) { ps_thr[t] = 0; ps_woken[t] = 0; ps_mvc[t] = 0; for (int u = 0; u < PS_MAXT; u++) ps_vc[t][u] = 0; }
   for (int r = 0; r < PS_MAXR; r++) ps_reg[r].base = 0;
-  ps_thr[0] = coordinator; ps_vc[0][0] = 1;
+  ps_thr[0] = coordinator;
+#ifdef PS_RACE
+  ps_race = 0; for (int t = 0; t < PS_MAXT; t++) ps_hn[t] = 0; ps_int_begin(0);
+#ifdef VR_POOL_ALLOC
+  for (int t = 1; t < PS_MAXT; t++) ps_region((char*)&ps_pool[t][0], sizeof ps_pool[t]);
+#endif
+#endif
 }
 int ps_all_done(void){ for (int t = 0; t < PS_MAXT; t++) if (t < ps_n && !ps_thr[t]->done) return 0; return 1; }
 int ps_enabled(int t){
@@ -44,24 +52,56 @@ int ps_enabled(int t){
   return 0;
 }
 #ifdef PS_RACE
+/* ---- happens-before race detection by access intervals.  An interval is what a thread does between two of its
+ * synchronisation operations; its read / write sets are bit masks over 4-byte shadow slots of the registered regions (an
+ * access through a concrete pointer is an OR with a constant), its position is the vector clock at its start and the
+ * thread's release count.  When an interval ends it is compared with every recorded interval of the other threads:
+ * conflicting masks and neither happens-before the other => race.  Clocks count releases (unlock, cond_wait, create, exit);
+ * acquire (lock, wake-up, start, join) takes the maximum with the released clock. */
+#define PS_MW 3
+#ifndef PS_MAXI
+#define PS_MAXI 40
+#endif
+struct ps_mask { uint64_t w[PS_MW]; };
+static struct ps_mask cur_r[PS_MAXT], cur_w[PS_MAXT];
+static uint16_t cur_vc[PS_MAXT][PS_MAXT];
+static struct { struct ps_mask r, w; uint16_t vc[PS_MAXT]; uint16_t c; } ps_hist[PS_MAXT][PS_MAXI];
+static uint16_t ps_hn[PS_MAXT];
+int ps_race;
 static void vc_join(uint16_t* a, const uint16_t* b){ for (int u = 0; u < PS_MAXT; u++) if (b[u] > a[u]) a[u] = b[u]; }
-static void ps_release(int t){ for (int u = 0; u < PS_MAXT; u++) ps_mvc[u] = ps_vc[t][u]; ps_vc[t][t]++; ps_owner = -1; }
-static void vc_fork(int parent, int child){ for (int u = 0; u < PS_MAXT; u++) ps_vc[child][u] = ps_vc[parent][u]; ps_vc[child][child] = 1; ps_vc[parent][parent]++; }
+static void ps_int_begin(int t){ for (int u = 0; u < PS_MAXT; u++) cur_vc[t][u] = ps_vc[t][u]; for (int k = 0; k < PS_MW; k++) { cur_r[t].w[k] = 0; cur_w[t].w[k] = 0; } }
+static void ps_int_end(int t){
+  uint16_t cb = ps_vc[t][t]; int any = 0; for (int k = 0; k < PS_MW; k++) any |= (cur_r[t].w[k] | cur_w[t].w[k]) != 0;
+  if (!any) return;
+  for (int u = 0; u < PS_MAXT; u++) if (u != t) for (int e = 0; e < PS_MAXI; e++) if (e < ps_hn[u]) {
+    int conflict = 0; for (int k = 0; k < PS_MW; k++) conflict |= ((ps_hist[u][e].w.w[k] & (cur_r[t].w[k] | cur_w[t].w[k])) | (cur_w[t].w[k] & ps_hist[u][e].r.w[k])) != 0;
+    if (conflict && !(ps_hist[u][e].c < cur_vc[t][u]) && !(cb < ps_hist[u][e].vc[t])) ps_race = 1; }
+  uint16_t n = ps_hn[t];
+  if (n >= PS_MAXI) { PS_FAIL(PS_F_MODEL, "abstraction insufficient: interval history full (raise PS_MAXI)"); return; }
+  ps_hist[t][n].r = cur_r[t]; ps_hist[t][n].w = cur_w[t]; ps_hist[t][n].c = cb; for (int u = 0; u < PS_MAXT; u++) ps_hist[t][n].vc[u] = cur_vc[t][u];
+  ps_hn[t] = n + 1;
+}
+static void ps_release(int t){ ps_int_end(t); ps_vc[t][t]++; for (int u = 0; u < PS_MAXT; u++) ps_mvc[u] = ps_vc[t][u]; ps_owner = -1; ps_int_begin(t); }
+static void ps_acquire(int t, const uint16_t* from){ ps_int_end(t); vc_join(ps_vc[t], from); ps_int_begin(t); }
+static void vc_fork(int parent, int child){ ps_int_end(parent); ps_vc[parent][parent]++; for (int u = 0; u < PS_MAXT; u++) ps_vc[child][u] = ps_vc[parent][u]; ps_vc[child][child] = 0; ps_hn[child] = 0; ps_int_begin(parent); }
+static void ps_exit(int t){ ps_int_end(t); ps_vc[t][t]++; }
 #else
 /* vector clocks are only maintained for the race detector */
-#define vc_join(a, b) ((void)0)
 static void ps_release(int t){ (void)t; ps_owner = -1; }
+#define ps_acquire(t, from) ((void)0)
+#define ps_int_begin(t) ((void)0)
 #define vc_fork(p, c) ((void)0)
+#define ps_exit(t) ((void)0)
 #endif
 static void ps_one_mutex(char* m){ if (!ps_mutex) ps_mutex = m; else if (ps_mutex != m) PS_FAIL(PS_F_MODEL, "abstraction insufficient: more than one mutex"); }
 static void ps_one_cv(char* c){ if (!ps_cv) ps_cv = c; else if (ps_cv != c) PS_FAIL(PS_F_MODEL, "abstraction insufficient: more than one condition variable"); }
 void ps_resume(int t){
   ps_cur = t;
   switch (ps_thr[t]->blk_op) {
-    case PS_LOCK: ps_one_mutex(ps_thr[t]->blk_a0); ps_owner = t; vc_join(ps_vc[t], ps_mvc); break;
-    case PS_WAIT: ps_owner = t; ps_woken[t] = 0; vc_join(ps_vc[t], ps_mvc); break;
-    case PS_JOIN: vc_join(ps_vc[t], ps_vc[(uint64_t)(uintptr_t)ps_thr[t]->blk_a0]); break;
-    default: break;
+    case PS_LOCK: ps_one_mutex(ps_thr[t]->blk_a0); ps_owner = t; ps_acquire(t, ps_mvc); break;
+    case PS_WAIT: ps_owner = t; ps_woken[t] = 0; ps_acquire(t, ps_mvc); break;
+    case PS_JOIN: ps_acquire(t, ps_vc[(uint64_t)(uintptr_t)ps_thr[t]->blk_a0]); break;
+    default: ps_int_begin(t); break;        /* thread start */
   }
   ps_thr[t]->blk_op = PS_START;
 }
@@ -72,6 +112,7 @@ void ps_after(int t){
     ps_woken[t] = 0; ps_release(t);
   }
   if (ps_thr[t]->done && ps_owner == t) PS_FAIL(PS_F_MUTEX, "C12 mutex protocol: thread finished while holding the mutex");
+  if (ps_thr[t]->done) ps_exit(t);
 }
 
 /* ---- pthread entry points called from the translated code */
@@ -115,31 +156,22 @@ static uint32_t ps_region_bytes(char* p){ (void)p; return 0; }
 #else
 void ps_region(char* p, uint64_t bytes){
   uint32_t n = (uint32_t)((bytes + 3) / 4);
+  for (int r = 0; r < PS_MAXR; r++) if (ps_reg[r].base == p) return;          /* static blocks are registered once */
   for (int r = 0; r < PS_MAXR; r++) if (!ps_reg[r].base) {
-    if (ps_slots_used + n > PS_SLOTS) { PS_FAIL(PS_F_MODEL, "abstraction insufficient: shadow memory exhausted"); return; }
-    ps_reg[r].base = p; ps_reg[r].bytes = (uint32_t)bytes; ps_reg[r].first = ps_slots_used;
-    for (uint32_t k = 0; k < n; k++) { uint32_t s = ps_slots_used + k; sh_wt[s] = 0xff; sh_wc[s] = 0; for (int u = 0; u < PS_MAXT; u++) sh_rc[s][u] = 0; }
-    ps_slots_used += n; return; }
+    if (ps_slots_used + n > 64 * PS_MW) { PS_FAIL(PS_F_MODEL, "abstraction insufficient: shadow slots exhausted"); return; }
+    ps_reg[r].base = p; ps_reg[r].bytes = (uint32_t)bytes; ps_reg[r].first = ps_slots_used; ps_slots_used += n; return; }
   PS_FAIL(PS_F_MODEL, "abstraction insufficient: too many shared regions");
-}
-static void ps_touch(uint32_t s, int wr){
-  int t = ps_cur;
-  if (sh_wt[s] != 0xff && sh_wt[s] != t && sh_wc[s] > ps_vc[t][sh_wt[s]]) PS_FAIL(PS_F_RACE, "C12 data race: access not ordered after another thread's write");
-  if (wr) {
-    for (int u = 0; u < PS_MAXT; u++) if (u != t && sh_rc[s][u] > ps_vc[t][u]) PS_FAIL(PS_F_RACE, "C12 data race: write not ordered after another thread's read");
-    sh_wt[s] = (uint8_t)t; sh_wc[s] = ps_vc[t][t];
-  } else sh_rc[s][t] = ps_vc[t][t];
 }
 void vh_access(char* p, uint64_t size, int wr){
   if (size == 0) return;
   for (int r = 0; r < PS_MAXR; r++) if (ps_reg[r].base && PS_SAME(p, ps_reg[r].base, ps_reg[r].bytes)) {
     uint64_t off = PS_OFF(p, ps_reg[r].base);
-    if (off + size > ps_reg[r].bytes) return;    /* out of bounds: reported by the memory checks, not here */
-    for (uint64_t k = off / 4; k <= (off + size - 1) / 4; k++) ps_touch(ps_reg[r].first + (uint32_t)k, wr);
+    if (off + size > ps_reg[r].bytes) return;    /* out of bounds: not the race detector's business */
+    for (uint64_t k = off / 4; k <= (off + size - 1) / 4; k++) { uint32_t s = ps_reg[r].first + (uint32_t)k; if (wr) cur_w[ps_cur].w[s >> 6] |= 1ULL << (s & 63); else cur_r[ps_cur].w[s >> 6] |= 1ULL << (s & 63); }
     return; }
 }
-void ps_unregion(char* p){
-  for (int r = 0; r < PS_MAXR; r++) if (ps_reg[r].base == p) { vh_access(p, ps_reg[r].bytes, 1); ps_reg[r].base = 0; return; }
+void ps_unregion(char* p){       /* releasing a block conflicts with every access to it */
+  for (int r = 0; r < PS_MAXR; r++) if (ps_reg[r].base == p) { vh_access(p, ps_reg[r].bytes, 1); return; }
 }
 static uint32_t ps_region_bytes(char* p){ for (int r = 0; r < PS_MAXR; r++) if (ps_reg[r].base == p) return ps_reg[r].bytes; return 0; }
 #endif
